@@ -7,7 +7,17 @@ re-opens, which gets the SAME stream id) must go out.  Over ALL framer states, A
 removals, queued control frames, rejections and `Append` calls and ALL amounts of pending data:
 
 * `rejection_forgets_every_stream`     after `Handle0RTTRejection` no stream is registered and none is queued; the
-                                       control-frame queue keeps exactly its non-flow-control frames, in order;
+                                       control-frame queue keeps exactly its non-flow-control frames, in order; the
+                                       streams with control frames are forgotten iff the source says so (shape fact
+                                       `Gen.FramerReject.handle0RTTRejectionClearsStreamControl`);
+* `rejection_forgets_stream_control`   UNDER the fact (the repaired handler): no stream with control frames survives;
+* `no_control_frame_of_discarded_stream_sent`  UNDER the fact, over ALL histories before and after the rejection: a
+                                       stream-related control frame (RESET_STREAM / STOP_SENDING / MAX_STREAM_DATA)
+                                       that any later `Append` takes belongs to a stream that announced control frames
+                                       AFTER the rejection - nothing of a discarded stream is sent;
+* `old_rule_sends_frame_of_discarded_stream`  witness (kernel `decide`) for the handler without the clearing: the
+                                       STOP_SENDING / RESET_STREAM a stream queued in the 0-RTT phase goes out after
+                                       the rejection (finding C04-stale-reset-after-0rtt-rejection);
 * `reopened_stream_is_queued`          a stream that registers after the rejection is queued, whatever was registered
                                        under its id before;
 * `sched_always`                       in every reachable state every registered stream is in the queue;
@@ -53,20 +63,36 @@ def Sched (f : Framer) : Prop := ∀ id, id ∈ f.active → id ∈ f.queue
 theorem rejection_forgets_every_stream (f : Framer) :
     (handle0RTTRejection f).active = [] ∧ (handle0RTTRejection f).queue = [] ∧
     (handle0RTTRejection f).frames = f.frames.filter (fun c => !c.1.flowControl) ∧
-    (handle0RTTRejection f).ctrl = f.ctrl := ⟨rfl, rfl, rfl, rfl⟩
+    (handle0RTTRejection f).ctrl =
+      if Uquic.Gen.FramerReject.handle0RTTRejectionClearsStreamControl then [] else f.ctrl := ⟨rfl, rfl, rfl, rfl⟩
+
+/-- either shape: registry, queue and control-frame queue as above -/
+theorem rejectionWith_forgets_every_stream (b : Bool) (f : Framer) :
+    (handle0RTTRejectionWith b f).active = [] ∧ (handle0RTTRejectionWith b f).queue = [] ∧
+    (handle0RTTRejectionWith b f).frames = f.frames.filter (fun c => !c.1.flowControl) ∧
+    (handle0RTTRejectionWith b f).ctrl = if b then [] else f.ctrl := ⟨rfl, rfl, rfl, rfl⟩
+
+/-- the repaired handler: no stream that announced control frames during the 0-RTT phase is remembered -/
+theorem rejection_forgets_stream_control (f : Framer)
+    (h : Uquic.Gen.FramerReject.handle0RTTRejectionClearsStreamControl = true) :
+    (handle0RTTRejection f).ctrl = [] := by
+  simp [handle0RTTRejection, handle0RTTRejectionWith, h]
 
 /-- no MAX_DATA / MAX_STREAM_DATA / MAX_STREAMS / …_BLOCKED frame of the rejected 0-RTT state survives, every other
 queued control frame does -/
 theorem rejection_filters_control_frames (f : Framer) (c : Ctl × Nat) :
     c ∈ (handle0RTTRejection f).frames ↔ c ∈ f.frames ∧ c.1.flowControl = false := by
-  simp [handle0RTTRejection, List.mem_filter]
+  simp [handle0RTTRejection, handle0RTTRejectionWith, List.mem_filter]
 
 theorem reopened_stream_is_queued (f : Framer) (id : Nat) :
     id ∈ (addActive (handle0RTTRejection f) id).queue ∧ id ∈ (addActive (handle0RTTRejection f) id).active := by
-  simp [addActive, handle0RTTRejection]
+  simp [addActive, handle0RTTRejection, handle0RTTRejectionWith]
 
-example : (addActive (handle0RTTRejection { active := [0, 4], queue := [4, 0], ctrl := [0], frames := [(.maxData, 1), (.ping, 2)] }) 0)
+example : (addActive (handle0RTTRejectionWith false { active := [0, 4], queue := [4, 0], ctrl := [0], frames := [(.maxData, 1), (.ping, 2)] }) 0)
     = { active := [0], queue := [0], ctrl := [0], frames := [(.ping, 2)] } := by decide
+
+example : (addActive (handle0RTTRejectionWith true { active := [0, 4], queue := [4, 0], ctrl := [0], frames := [(.maxData, 1), (.ping, 2)] }) 0)
+    = { active := [0], queue := [0], ctrl := [], frames := [(.ping, 2)] } := by decide
 
 theorem sched_init : Sched {} := by intro id h; cases h
 
@@ -253,6 +279,95 @@ theorem wrong_map_rule_starves_reopened_stream :
   · intro h
     have := h 0 (by decide)
     revert this; decide
+
+/-! ### nothing of a discarded stream is sent (the repaired handler) -/
+
+/-- the ids that announced control frames since the last rejection (all of them when there was none) -/
+def ctrlSinceReject : List Op → List Nat
+  | [] => []
+  | .reject :: _ => []
+  | .ctrl id :: rest => id :: ctrlSinceReject rest
+  | _ :: rest => ctrlSinceReject rest
+
+/-- `ops` newest first -/
+def runRev (ops : List Op) : Framer := ops.foldr (fun o f => applyOp f o) {}
+
+theorem run_eq_runRev (ops : List Op) : run ops = runRev ops.reverse := by
+  simp [run, runRev, List.foldr_reverse]
+
+/-- UNDER the fact: every stream the framer remembers as having control frames announced them after the last
+rejection -/
+theorem ctrl_since_reject (h : Uquic.Gen.FramerReject.handle0RTTRejectionClearsStreamControl = true) (rev : List Op) :
+    ∀ id, id ∈ (runRev rev).ctrl → id ∈ ctrlSinceReject rev := by
+  induction rev with
+  | nil => intro id hid; simp [runRev] at hid
+  | cons o rest ih =>
+    intro id hid
+    have e : runRev (o :: rest) = applyOp (runRev rest) o := rfl
+    rw [e] at hid
+    cases o with
+    | add i =>
+      have : (addActive (runRev rest) i).ctrl = (runRev rest).ctrl := by unfold addActive; split <;> rfl
+      exact ih id (by simpa [applyOp, this] using hid)
+    | remove i => exact ih id hid
+    | ctrl i =>
+      simp only [applyOp, addCtrl] at hid
+      simp only [ctrlSinceReject]
+      split at hid
+      · exact List.mem_cons_of_mem _ (ih id hid)
+      · simp at hid
+        rcases hid with hid | hid
+        · exact List.mem_cons_of_mem _ (ih id hid)
+        · simp [hid]
+    | queue c t => exact ih id hid
+    | reject =>
+      simp only [applyOp] at hid
+      rw [rejection_forgets_stream_control _ h] at hid
+      cases hid
+    | appendStreams p => exact ih id hid
+    | appendControl p => simp [applyOp, appendControl] at hid
+
+/-- what `appendControl` takes from the streams are frames of streams the framer remembers -/
+theorem appendControl_streams_mem (f : Framer) (cp : Nat → Nat) (id : Nat) (h : id ∈ (appendControl f cp).2.1) :
+    id ∈ f.ctrl := by
+  simp only [appendControl, List.mem_flatMap, List.mem_replicate] at h
+  obtain ⟨a, ha, _, e⟩ := h
+  exact e ▸ ha
+
+/-- what came before the last rejection does not matter -/
+theorem ctrlSinceReject_cut (r x : List Op) :
+    ctrlSinceReject (r ++ Op.reject :: x) = ctrlSinceReject (r ++ [Op.reject]) := by
+  induction r with
+  | nil => simp [ctrlSinceReject]
+  | cons o rest ih => cases o <;> simp [ctrlSinceReject, ih]
+
+/-- **after a 0-RTT rejection no control frame of a discarded stream is sent** (the repaired handler): over ALL
+histories `before` the rejection and ALL operations `after` it (registrations, further rejections, `Append` calls, any
+pending amounts), a stream-related control frame (RESET_STREAM, STOP_SENDING, MAX_STREAM_DATA) in the next `Append`
+belongs to a stream that announced it AFTER the rejection.  In particular directly after the rejection none is sent. -/
+theorem no_control_frame_of_discarded_stream_sent
+    (h : Uquic.Gen.FramerReject.handle0RTTRejectionClearsStreamControl = true)
+    (before after : List Op) (cp : Nat → Nat) (id : Nat)
+    (hs : id ∈ (appendControl (run (before ++ [.reject] ++ after)) cp).2.1) :
+    id ∈ ctrlSinceReject (after.reverse ++ [.reject]) := by
+  have h1 := appendControl_streams_mem _ cp id hs
+  rw [run_eq_runRev] at h1
+  have h2 := ctrl_since_reject h _ id h1
+  have e : (before ++ [Op.reject] ++ after).reverse = after.reverse ++ Op.reject :: before.reverse := by simp
+  rw [e, ctrlSinceReject_cut] at h2
+  exact h2
+
+theorem nothing_of_discarded_stream_right_after_rejection
+    (h : Uquic.Gen.FramerReject.handle0RTTRejectionClearsStreamControl = true) (f : Framer) (cp : Nat → Nat) :
+    (appendControl (handle0RTTRejection f) cp).2.1 = [] := by
+  simp [appendControl, rejection_forgets_stream_control f h]
+
+/-- witness for the handler WITHOUT the clearing (the source before the repair): stream 4 announced one control frame
+(its RESET_STREAM / STOP_SENDING) in the 0-RTT phase; the rejection discards the stream; the next `Append` sends the
+frame all the same.  With the clearing it does not. -/
+theorem old_rule_sends_frame_of_discarded_stream :
+    (appendControl (handle0RTTRejectionWith false (addCtrl {} 4)) (fun _ => 1)).2.1 = [4] ∧
+    (appendControl (handle0RTTRejectionWith true (addCtrl {} 4)) (fun _ => 1)).2.1 = [] := by decide
 
 /-! ## (2) one spec value, many connections -/
 
